@@ -233,15 +233,76 @@ Theorem gadget_alone : forall evs a,
   In a (handlers (run evs)) -> is_gadget a = true -> handlers (run evs) = [a].
 Proof. intros evs a Ha Hg. apply excl_gadget_alone; [apply excl_invariant | exact Ha | exact Hg]. Qed.
 
-(* cleanup goroutines (TaskRunner.clean) are not subject to the predicates: one can run next to update-gadget-assets *)
-Definition cleanup_witness : list event :=
-  [EEnsure [CClean (mkT 1 (kd 14) None); CRun (mkT 2 (kd 2) None)]].
+(* ------------------------------------------------------------------------------------------ gadget update and cleanups *)
 
-Theorem cleanups_not_serialized :
-  exists evs a c, In (a, false) (run evs) /\ is_gadget a = true /\ In (c, true) (run evs).
+(* the direction the predicates do enforce: update-gadget-assets is never started while anything (handler or cleanup
+   started in an earlier pass) has a tomb *)
+Theorem gadget_waits_for_running : forall t running,
+  is_gadget t = true -> running <> [] -> blocked t running = true.
 Proof.
-  exists cleanup_witness, (mkT 2 (kd 2) None), (mkT 1 (kd 14) None).
-  split; [vm_compute; right; left; reflexivity|]. split; [vm_compute; reflexivity | vm_compute; left; reflexivity].
+  intros t running Hg Hr. destruct running as [|u r]; [contradiction|].
+  rewrite blocked_cons, conflict_alt, Hg. rewrite orb_true_r. reflexivity.
+Qed.
+
+(* the full statement `while update-gadget-assets executes nothing else has a goroutine` is false: TaskRunner.clean
+   neither consults the predicates nor adds to `running`. Two witnesses: cleanup and gadget update started in the same
+   pass; cleanup started in a later pass while the gadget update is executing. *)
+Definition cleanup_witness_same_pass : list event :=
+  [EEnsure [CClean (mkT 1 (kd 14) None); CRun (mkT 2 (kd 2) None)]].
+Definition cleanup_witness_later_pass : list event :=
+  [EEnsure [CRun (mkT 2 (kd 2) None)]; EEnsure [CClean (mkT 1 (kd 14) None)]].
+
+Theorem gadget_alone_refuted_by_cleanup :
+  (exists evs a, In (a, false) (run evs) /\ is_gadget a = true /\ run evs <> [(a, false)]) /\
+  run cleanup_witness_same_pass = [(mkT 1 (kd 14) None, true); (mkT 2 (kd 2) None, false)] /\
+  run cleanup_witness_later_pass = [(mkT 2 (kd 2) None, false); (mkT 1 (kd 14) None, true)].
+Proof.
+  split; [|split; vm_compute; reflexivity].
+  exists cleanup_witness_later_pass, (mkT 2 (kd 2) None).
+  split; [vm_compute; left; reflexivity|]. split; [vm_compute; reflexivity | vm_compute; discriminate].
+Qed.
+
+(* guarded statement: in histories in which no cleanup is started, the gadget update is literally alone *)
+Lemma ensure_loop_no_clean : forall cs tb running,
+  forallb no_clean_cand cs = true -> (forall x, In x tb -> snd x = false) ->
+  forall x, In x (ensure_loop tb running cs) -> snd x = false.
+Proof.
+  induction cs as [|c cs IH]; intros tb running NC H; cbn [ensure_loop]; [exact H|].
+  cbn in NC. apply andb_true_iff in NC. destruct NC as [NC1 NC2].
+  destruct c as [t|t|]; [|discriminate|apply IH; assumption].
+  destruct (has_tomb (t_id t) tb); [apply IH; assumption|].
+  destruct (blocked t running); [apply IH; assumption|].
+  apply IH; [exact NC2|]. intros x Hx. apply in_app_iff in Hx. destruct Hx as [Hx|[<-|[]]]; [apply H; exact Hx | reflexivity].
+Qed.
+
+Lemma run_no_clean : forall evs, no_clean evs = true -> forall x, In x (run evs) -> snd x = false.
+Proof.
+  intro evs. unfold run, no_clean.
+  assert (G : forall tb, forallb (fun e => match e with EEnsure cs => forallb no_clean_cand cs | EDone _ => true end) evs = true ->
+                         (forall x, In x tb -> snd x = false) -> forall x, In x (fold_left step evs tb) -> snd x = false).
+  { induction evs as [|e evs IH]; intros tb NC H; cbn; [exact H|].
+    cbn in NC. apply andb_true_iff in NC. destruct NC as [NC1 NC2]. apply IH; [exact NC2|].
+    destruct e as [cs|id]; cbn [step].
+    - unfold ensure_pass. apply ensure_loop_no_clean; assumption.
+    - intros x Hx. apply filter_In in Hx. apply H. tauto. }
+  intros NC. apply G; [exact NC | intros x []].
+Qed.
+
+Lemma all_handlers : forall tb, (forall x, In x tb -> snd x = false) -> tb = map (fun t => (t, false)) (handlers tb).
+Proof.
+  unfold handlers. induction tb as [|[t c] tb IH]; intro H; [reflexivity|].
+  assert (c = false) by (apply (H (t, c)); left; reflexivity). subst c. cbn.
+  rewrite <- IH; [reflexivity|]. intros x Hx. apply H. right. exact Hx.
+Qed.
+
+Theorem gadget_alone_guarded : forall evs a,
+  no_clean evs = true -> In (a, false) (run evs) -> is_gadget a = true -> run evs = [(a, false)].
+Proof.
+  intros evs a NC Ha Hg.
+  rewrite (all_handlers (run evs) (run_no_clean evs NC)).
+  assert (In a (handlers (run evs))).
+  { unfold handlers. apply in_map_iff. exists (a, false). split; [reflexivity|]. apply filter_In. split; [exact Ha | reflexivity]. }
+  rewrite (gadget_alone evs a H Hg). reflexivity.
 Qed.
 
 (* ------------------------------------------------------------------------------------------ specification kinds *)
